@@ -7,6 +7,35 @@ NOTES = ('All checks are bounded symbolic model checking of the real code (go/ss
          'exit 1 = a natively reproduced, unlisted violation; exit 2 = infrastructure failure (no VIOLATION line). See DESIGN.md.')
 
 CHECKS = {
+    'C02': dict(
+        text='Bounded symbolic execution of the real decoder on fully symbolic byte windows: every index, slice bound, nil dereference, '
+             'division and explicit panic on every feasible path is an obligation, the input slice is a read-only region, and the '
+             'structural claims (first call Reset, >=1 byte per delivered call, prefix-closedness, DecodeError) are asserted per path. '
+             'Right level: safety of a parser over all inputs up to a length bound is exactly what bounded model checking decides.',
+        note='Bounds: windows/streams of the lengths stated in evidence.bounds; longer inputs only through the per-step lemma. '
+             'Trusted: executor, solvers; fmt and bytes.Buffer are stubs (no-op recorders); rasteriser is a recording stub.',
+    ),
+    'C03': dict(
+        text='Differential symbolic execution: the real decoder and an independent reference parser written from spec/iconvg-spec-v0.md '
+             'run on the same symbolic bytes; accept/reject, bytes consumed, next mode and every delivered operand (bit level) must agree '
+             'for every byte pattern within the window. Right level: grammar conformance is a for-all-inputs equivalence.',
+        note='Bounds: one instruction within L bytes, whole streams of 4+L bytes (evidence.bounds). Streams whose metadata chunks repeat or '
+             'decrease MIDs are a stated do-not-care region. Trusted: executor, solvers, the reference parser (harness/ref).',
+    ),
+    'C09': dict(
+        text='Bit-vector symbolic execution of colour codecs, Encoder.SetCReg, the suggested-palette writer/reader and Color.Resolve over all '
+             'byte patterns / all 2^32 RGBA values / all (t,c0,c1) with fully symbolic palette and registers; blend decided as three chained lemmas. '
+             'Right level: tables and arithmetic on bytes with rare failing inputs (found: 1-byte palette form for translucent colours).',
+        note='Bounds: suggested palettes with n explicit symbolic entries (quick 2, thorough 4). Premultiplication lemma needs cvc5 --solve-bv-as-int. '
+             'Trusted: executor, solvers.',
+    ),
+    'C12': dict(
+        text='AspectMeet/AspectSlice executed symbolically in a rounded-real reading (each float32 operation = exact*(1+d), |d|<=2^-24) with the '
+             'specification stated in exact reals: unsat means the property holds for all real-rounded executions in the stated ranges; exact parts '
+             '(kept dimension, Size) are decided bit-exactly in IEEE floating point.',
+        note='Rounded-real over-approximates float32 only inside [2^-40,2^40] (no overflow/underflow modelled). Non-linear real arithmetic by z3 nlsat. '
+             'Trusted: executor, solvers, the error model.',
+    ),
     'C08': dict(
         text='Bit-exact (bit-vector + IEEE floating point) symbolic execution of the real number encoders/decoders over all 2^32 float32 '
              'inputs, all naturals below 2^30 and all 1/2/4-byte decoder patterns; the solver verdict covers every value, so the single '
